@@ -282,10 +282,16 @@ func sweeps(r *hx.Run, g *gen, next nextWorld, tr *registry.Transport) {
 			w.finish()
 		}
 		for i := off; i < len(b.wire); i += b.step {
-			body := append([]byte(nil), b.wire...)
-			body[i] ^= 1 << (g.rnd.Intn(8))
-			run(mk(body, "sweep-flip", false))
-			run(mk(body, "sweep-flip", true))
+			bits := []int{g.rnd.Intn(8)}
+			if g.cfg.Thorough() && len(b.wire) < 400 {
+				bits = []int{0, 1, 2, 3, 4, 5, 6, 7}
+			}
+			for _, bit := range bits {
+				body := append([]byte(nil), b.wire...)
+				body[i] ^= 1 << bit
+				run(mk(body, "sweep-flip", false))
+				run(mk(body, "sweep-flip", true))
+			}
 		}
 		for k := off; k < len(b.wire); k += b.step {
 			body := b.wire[:k]
@@ -303,6 +309,17 @@ func sweeps(r *hx.Run, g *gen, next nextWorld, tr *registry.Transport) {
 			l = mk(body, "sweep-cut-silent", true)
 			l.script.Framing = registry.FrameClose
 			run(l)
+			// the server fails or stalls at this point of the response
+			if len(b.wire) < 400 {
+				l = mk(body, "sweep-reset-at", g.rnd.Chance(1, 2))
+				l.script.Framing, l.script.End = registry.FrameChunked, registry.EndReset
+				run(l)
+				if k%g.cfg.N(25, 5) == 0 {
+					l = mk(body, "sweep-stall-at", g.rnd.Chance(1, 2))
+					l.script.Declared, l.script.End = len(b.wire), registry.EndStall
+					run(l)
+				}
+			}
 		}
 		// extensions of 1..6 bytes
 		for n := 1; n <= 6; n++ {
